@@ -8,7 +8,9 @@ path: a block that is too small is replaced by a fresh one of exactly usize + vs
 until the end when w is an operand (`free_me`), freed at once otherwise —, an aliased operand copied to temporary space when the block is large
 enough, squaring), mpz/tdiv_q.c and mpz/tdiv_r.c (`MPZ_REALLOC (quot, nl - dl + 1)` / `MPZ_REALLOC (rem, dl)` against the limbs mpn_tdiv_q / mpn_tdiv_qr store —
 sufficient, and necessary: `mpz_tdiv_q_request_necessary` —, operands copied to temporary space when they are the output variable, the quotient of
-mpz_tdiv_r in temporary space) in lean/Mpir/Model/AllocSafeMpz4.lean.  Ops `as4_*`
+mpz_tdiv_r in temporary space), and mpf/urandomb.c on an mpf destination (a block of PREC + 1 limbs that is never reallocated: the clamp
+`nlimbs <= PREC + 1` keeps `_gmp_rand`, the in-place shift and the strip loop inside it; op `as4_mpf_urandomb` with the Mersenne Twister model of C19)
+in lean/Mpir/Model/AllocSafeMpz4.lean.  Ops `as4_*`
 (harness/ops_allocsafe4.c) run the real function on objects of the GIVEN allocations in every alias mode and compare ALLOC(w), SIZ(w)
 and the value with the model's run."""
 from genlib import *
@@ -22,12 +24,14 @@ THEOREMS = ["Mpir.AllocSafe." + t for t in (
     "aorsmul_1_zero_refines", "aorsmul_refines", "aorsmulCore_refines", "add_S_refines", "sub_S_refines", "mpn_mul_tmp_spec",
     "Wrote.rd_src", "mpz_mul_alloc_safe", "mul_refines", "mulGeneric_refines", "mulTail_refines", "tmp_copy_spec", "Den.fresh",
     "mpz_tdiv_q_alloc_safe", "mpz_tdiv_q_request_necessary", "mpz_tdiv_r_alloc_safe", "tdiv_q_refines", "tdiv_r_refines",
-    "Spec.tdiv_q_spec", "Spec.tdiv_r_spec", "copyIfSame_spec")]
+    "Spec.tdiv_q_spec", "Spec.tdiv_r_spec", "copyIfSame_spec",
+    "mpf_urandomb_dest_safe", "mpf_urandomb_seeded_unsafe", "mpf_urandomb_fin_spec")]
 TRUSTED = ["hand-written size-aware models lean/Mpir/Model/AllocSafeMpz4.lean (mpz/aorsmul_i.c, aorsmul.c on the memory model of AllocSafe.lean; "
            "TMP_ALLOC_LIMBS (tsize) = a block of its own that no variable points to; mpn_mul = the schoolbook product written to "
            "[0, xn+yn) of its destination; mpn_tdiv_q / mpn_tdiv_qr = their contracts (C02 tdiv_q_contract / tdiv_qr_contract): exactly nl-dl+1 quotient "
            "limbs and dl remainder limbs stored), tied by exact comparison of ALLOC(w), SIZ(w), value in every alias mode, and by source pins"]
-ASSUMPTIONS = ["MPN_INCR_U / MPN_DECR_U (gmp-impl.h: unbounded `while (++(*(p++)) == 0);`) are checked as a read and a write of the `size` limbs "
+ASSUMPTIONS = ["_gmp_rand (rp, rstate, nbits) stores exactly BITS_TO_LIMBS (nbits) limbs (C19: randget_mt / the repaired randget_lc; op @mpn_urandomb there)",
+               "MPN_INCR_U / MPN_DECR_U (gmp-impl.h: unbounded `while (++(*(p++)) == 0);`) are checked as a read and a write of the `size` limbs "
                "the caller names (aorsmul_i.c:151, 178); the carry stops inside them because of the limb stored just before"]
 RULE = ("allocsafe4: addmul_ui/submul_ui/addmul/submul with every sign combination (the effective operation is an add or a sub of magnitudes), "
         "w shorter than / as long as / longer than x (resp. the product), w = 0, all-ones operands (carry into the extra limb), |w| < |x*y| with "
@@ -35,7 +39,7 @@ RULE = ("allocsafe4: addmul_ui/submul_ui/addmul/submul with every sign combinati
         "aorsmul_i.c:169, products with a zero top limb, one-limb multiplier in either position, all five alias modes, destination allocation "
         "exact / need-1 / need / generous")
 
-PINS = [("mpz/aorsmul_i.c", None), ("mpz/aorsmul.c", None), ("mpz/mul.c", None), ("mpz/tdiv_q.c", None), ("mpz/tdiv_r.c", None)]
+PINS = [("mpz/aorsmul_i.c", None), ("mpz/aorsmul.c", None), ("mpz/mul.c", None), ("mpz/tdiv_q.c", None), ("mpz/tdiv_r.c", None), ("mpf/urandomb.c", None)]
 
 def nl(x): return (abs(x).bit_length() + 63) // 64
 
@@ -167,6 +171,14 @@ def gen_div(rng, name):
     w = sgnd(rng, special(rng, rng.randrange(1, 4)))
     return "%s %x %s %s %s" % (name, m, obj(rng, w, need), obj(rng, n, need), obj(rng, d, need))
 
+def gen_furandomb(rng):
+    """mpf_urandomb: nbits below / at / above the (PREC + 1)-limb capacity, multiples of 64 and not, 0"""
+    pb = rng.choice([1, 53, 64, 65, 128, 129, 192, 64 * rng.randrange(1, 8) + rng.randrange(64)])
+    prec = (max(53, pb) + 127) // 64
+    cap = 64 * (prec + 1)
+    nb = rng.choice([0, 1, 63, 64, 65, cap - 64, cap - 1, cap, cap + 1, cap + 63, cap + 64, cap + 65, 2 * cap, rng.randrange(1, cap + 130)])
+    return "as4_mpf_urandomb %x %x %x" % (rng.getrandbits(rng.choice([1, 32, 64])), pb, max(nb, 0))
+
 def gen_ops(rng, tier, ctx=None):
     n = 1000 if tier == "quick" else 12000
     for _ in range(n):
@@ -177,6 +189,7 @@ def gen_ops(rng, tier, ctx=None):
         yield gen_mul(rng)
         yield gen_div(rng, "as4_tdiv_q")
         yield gen_div(rng, "as4_tdiv_r")
+        if _ % 4 == 0: yield gen_furandomb(rng)
 
 def nontrivial(line):
     return line if line.startswith("as4_") else None
